@@ -411,43 +411,11 @@ def _is_effectful(st) -> bool:
     return False
 
 
-def _alpha(fn):
-    """copy of the function with the bound variables of lambdas and comprehensions renamed positionally (their names never matter)"""
-    import copy
-    fn = copy.deepcopy(fn)
-    counter = [0]
+from .spelling import _alpha, _Canon, _canon_fn   # noqa: E402
 
-    def rename(node, mapping):
-        skip = set()
-        if isinstance(node, (ast.ListComp, ast.SetComp, ast.DictComp, ast.GeneratorExp)):
-            skip = {id(y) for y in ast.walk(node.generators[0].iter)}        # evaluated in the enclosing scope
-        for x in ast.walk(node):
-            if id(x) in skip:
-                continue
-            if isinstance(x, ast.Name) and x.id in mapping:
-                x.id = mapping[x.id]
-            elif isinstance(x, ast.arg) and x.arg in mapping:
-                x.arg = mapping[x.arg]
-    for n in ast.walk(fn):
-        if isinstance(n, ast.Lambda):
-            a = n.args
-            if a.kwonlyargs or a.vararg or a.kwarg:
-                continue
-            names = [x.arg for x in a.posonlyargs + a.args]
-            m = {}
-            for nm in names:
-                m[nm] = f"_p{counter[0]}"
-                counter[0] += 1
-            rename(n, m)
-        elif isinstance(n, (ast.ListComp, ast.SetComp, ast.DictComp, ast.GeneratorExp)):
-            m = {}
-            for g in n.generators:
-                for x in ast.walk(g.target):
-                    if isinstance(x, ast.Name) and x.id not in m:
-                        m[x.id] = f"_c{counter[0]}"
-                        counter[0] += 1
-            rename(n, m)
-    return fn
+
+def _size_like(x) -> bool:
+    return isinstance(x, ast.Constant) and type(x.value) in (int, float) and x.value >= 1000
 
 
 def small_edits(ref_src: str, now_fn):
@@ -456,7 +424,7 @@ def small_edits(ref_src: str, now_fn):
         ref_fn = ast.parse(ref_src).body[0]
     except (SyntaxError, IndexError):
         return None
-    ref_fn, now_fn = _alpha(ref_fn), _alpha(now_fn)
+    ref_fn, now_fn = _canon_fn(_alpha(ref_fn)), _canon_fn(_alpha(now_fn))
     d = _Diff()
     # signature defaults matter (a changed default value is a small edit), annotations and decorators do not
     ra, na = ref_fn.args, now_fn.args
@@ -468,6 +436,8 @@ def small_edits(ref_src: str, now_fn):
         if len(rd) != len(nd):
             return None
         for x, y in zip(ra.defaults + [k for k in ra.kw_defaults if k is not None], na.defaults + [k for k in na.kw_defaults if k is not None]):
+            if _size_like(x) and _size_like(y):
+                continue        # a default buffer / chunk size: the properties hold for every size
             d.node(x, y)
     d.stmts(_strip(ref_fn), _strip(now_fn))
     if d.structural:
